@@ -47,8 +47,11 @@ def _mk_path(lat, lon, tiers):
         # (ii) history: another query first, then this one with the date given again / with date=None
         u = WMM(date=DATE, latitude=12.0, longitude=34.0)
         u.magnetic_field(-20.0, 100.0, 3.0, date=DATE)
+        first = dict(u.magnetic_elements)         # reading the elements between two queries must not freeze them
         u.magnetic_field(lat, lon, hgt, date=DATE)
         h.check('after another query (date given again) == fresh object', h.eq(_xyz(u), R))
+        me = u.magnetic_elements
+        h.check('magnetic_elements of the reused object reports the latest query', h.eq(np.array([me['X'], me['Y'], me['Z']]), R))
         v = WMM(date=DATE, latitude=12.0, longitude=34.0)
         v.magnetic_field(lat, lon, hgt, date=None)
         h.check('second query with date=None == fresh object', h.eq(_xyz(v), R))
@@ -68,6 +71,14 @@ def _mk_path(lat, lon, tiers):
         e = WMM(date=DATE, latitude=12.0, longitude=34.0, frame='ENU')
         e.magnetic_field(lat, lon, hgt, date=DATE)
         h.check('ENU == (Y, X, -Z) of NED', h.eq(_xyz(e), np.array([R[1], R[0], -R[2]])))
+        if (lat, lon) == (45.0, 60.0):
+            # every spelling of the frame the constructor accepts means the same frame
+            for spelling in ('enu', 'Enu'):
+                raised, e2 = h.raises(lambda: WMM(date=DATE, latitude=12.0, longitude=34.0, frame=spelling), (ValueError,))
+                if raised:
+                    continue
+                e2.magnetic_field(lat, lon, hgt, date=DATE)
+                h.check(f"frame={spelling!r} (accepted) == frame='ENU'", h.eq(_xyz(e2), _xyz(e)))
         # (iv) derived elements
         h.check('H^2 == X^2 + Y^2, H >= 0', h.eq(ref.H * ref.H, R[0] * R[0] + R[1] * R[1]) & h.ge(ref.H, 0.0))
         h.check('F^2 == H^2 + Z^2, F >= 0', h.eq(ref.F * ref.F, ref.H * ref.H + R[2] * R[2]) & h.ge(ref.F, 0.0))
